@@ -2661,17 +2661,17 @@ func (dsc *dataStoreCommand) setOperationCount(
 func (dsc *dataStoreCommand) diffWorker(firstKey string, keyNames ...string) (d *redisDict, wrongType bool) {
 	sk, objExists := dsc.getKeyObjectUnlocked(firstKey)
 	if !objExists {
+		// the result is empty, but the other keys are still type checked
 		d = newRedisDict()
-		return
-	}
+	} else {
+		m := sk.getSet()
+		if m == nil {
+			wrongType = true
+			return
+		}
 
-	m := sk.getSet()
-	if m == nil {
-		wrongType = true
-		return
+		d = m.clone()
 	}
-
-	d = m.clone()
 
 	for _, keyName := range keyNames {
 		sk2, objExists := dsc.getKeyObjectUnlocked(keyName)
@@ -2702,29 +2702,34 @@ func (dsc *dataStoreCommand) diffSetStore(destination, keyName string, withKeyNa
 
 func (dsc *dataStoreCommand) intersectWorker(firstKey string, keyNames ...string) (d *redisDict, wrongType bool) {
 	sk, objExists := dsc.getKeyObjectUnlocked(firstKey)
+
+	// a missing key makes the result empty, but the other keys are still type checked
+	var m *redisDict
 	if !objExists {
 		d = newRedisDict()
-		return
-	}
+	} else {
+		m = sk.getSet()
+		if m == nil {
+			wrongType = true
+			return
+		}
 
-	m := sk.getSet()
-	if m == nil {
-		wrongType = true
-		return
+		d = m.clone()
 	}
-
-	d = m.clone()
 
 	for _, keyName := range keyNames {
 		sk2, objExists := dsc.getKeyObjectUnlocked(keyName)
 		if !objExists {
 			d = newRedisDict()
-			return
+			continue
 		}
 		m2 := sk2.getSet()
 		if m2 == nil {
 			wrongType = true
 			return
+		}
+		if d.count == 0 {
+			continue
 		}
 
 		removalNames := []string{}
@@ -2746,11 +2751,13 @@ func (dsc *dataStoreCommand) intersectWorker(firstKey string, keyNames ...string
 
 func (dsc *dataStoreCommand) intersectWithLimitWorker(limit int, keyNames ...string) (d *redisDict, wrongType bool) {
 	sets := make([]*redisDict, 0, len(keyNames))
+	missing := false
 	for _, keyName := range keyNames {
 		sk, objExists := dsc.getKeyObjectUnlocked(keyName)
 		if !objExists {
-			d = newRedisDict()
-			return
+			// the result is empty, but the other keys are still type checked
+			missing = true
+			continue
 		}
 
 		m := sk.getSet()
@@ -2763,6 +2770,9 @@ func (dsc *dataStoreCommand) intersectWithLimitWorker(limit int, keyNames ...str
 	}
 
 	d = newRedisDict()
+	if missing {
+		return
+	}
 	if len(sets) == 0 {
 		return
 	}
